@@ -517,7 +517,7 @@ pub fn check_shape(text: &str, prog: &[Stmt], key_prefix: &str, out: &mut Vec<Fa
         if !parse.errors().is_empty() {
             return None;
         }
-        Some(a_program_lines(&parse.tree()))
+        Some((a_program_lines(&parse.tree()), accessor_disagreements(&parse.syntax_node())))
     });
     match r {
         Err(p) => {
@@ -525,7 +525,10 @@ pub fn check_shape(text: &str, prog: &[Stmt], key_prefix: &str, out: &mut Vec<Fa
             true
         }
         Ok(None) => false,
-        Ok(Some(actual)) => {
+        Ok(Some((actual, disagreements))) => {
+            for (which, what) in disagreements {
+                out.push(Failure::new(format!("C05:accessor-disagreement:{which}"), json!({"input": {"source": text, "model": expected}, "actual": what})));
+            }
             if actual != expected {
                 let i = expected.iter().zip(actual.iter()).position(|(a, b)| a != b).unwrap_or(expected.len().min(actual.len()));
                 let e = expected.get(i).cloned().unwrap_or("<no statement>".into());
@@ -572,7 +575,7 @@ fn wrap_contexts(e: &Expr) -> Vec<(&'static str, Vec<Stmt>)> {
 }
 
 pub fn run_c05(ctx: &RunCtx) {
-    ctx.set_rule("(i) exhaustive operator matrix: every ordered pair of the 19 binary operators on both sides, every unary x binary / unary x unary / unary x postfix / cast x binary combination, printed with exactly the required parentheses and with redundant ones, in 3 contexts; (ii) random expression trees to depth 6; (iii) generated programs and the statement-form x body-position matrix for accessor roles. oracle: canonical rendering of the typed AST (through the public accessors) equals the rendering of the model term. non-trivial = expression with >=2 operators or statement with >=2 role slots; distinct by model term");
+    ctx.set_rule("(i) exhaustive operator matrix: every ordered pair of the 19 binary operators on both sides, every unary x binary / unary x unary / unary x postfix / cast x binary combination, printed with exactly the required parentheses and with redundant ones, in 3 contexts; (ii) random expression trees to depth 6; (iii) generated programs and the statement-form x body-position matrix for accessor roles. oracle: canonical rendering of the typed AST (through the public accessors) equals the rendering of the model term, and redundant accessors agree with each other (block/single-statement views of if/while/for bodies, loop_body, sub_exprs vs lhs/rhs, operator token vs operator kind and its position between the operands, index base, gate-call name). non-trivial = expression with >=2 operators or statement with >=2 role slots; distinct by model term");
     ctx.assume("the OpenQASM 3 precedence table is transcribed from the language specification: call/index/cast; ** (right); unary; * / %; + -; << >>; < <= > >=; == !=; &; ^; |; &&; ||");
     let a = || id("a");
     let b = || id("b");
